@@ -569,12 +569,18 @@ pub fn journal_enable() {
     JOURNAL_ON.store(true, std::sync::atomic::Ordering::Relaxed);
 }
 
-/// Records the input that is about to be handed to the implementation (tag: eval | parse | lex)
+thread_local! {
+    /// set on threads that evaluate with the platform's default stack size (deep-nesting inputs)
+    pub static SMALL_STACK: std::cell::Cell<bool> = const { std::cell::Cell::new(false) };
+}
+
+/// Records the input that is about to be handed to the implementation (tag: eval | eval8 | parse | lex)
 pub fn note_current(tag: &str, text: &str) {
     use std::io::{Seek, SeekFrom, Write};
     if !JOURNAL_ON.load(std::sync::atomic::Ordering::Relaxed) {
         return;
     }
+    let tag = if tag == "eval" && SMALL_STACK.with(|s| s.get()) { "eval8" } else { tag };
     JOURNAL.with(|j| {
         let mut j = j.borrow_mut();
         if j.is_none() {
@@ -600,6 +606,15 @@ pub fn probe(tag: &str, text: &str) {
         }
         "lex" => {
             let _ = catch_unwind(|| verif::tokens(text));
+        }
+        "eval8" => {
+            // the platform's default stack for a main thread
+            let text = text.to_string();
+            let h = std::thread::Builder::new().stack_size(8 << 20).spawn(move || {
+                install_gc_observer();
+                let _ = run_eval(&text, &RunCfg { budget: 30_000_000, audit_heap: true });
+            });
+            let _ = h.expect("spawn").join();
         }
         _ => {
             install_gc_observer();
